@@ -34,15 +34,15 @@ Section Main.
     intros (C & LL & A & V & HI) [Hnc Hnv] Hstep. destruct l as [bl|k|i j|i].
     - destruct bl as [gl|i ty data fs|i j next last|i j|k cut fs].
       + destruct gl as [i|i j cut fs|i j|j e cut fs].
-        * destruct (cinv_timeout cfg Ps HVn g C LL A V i g' HI Hstep) as (C' & LL' & A' & V' & H). exists C', LL', A', V'. exact H.
+        * destruct (cinv_timeout cfg Ps HVn g C LL A V i g' HI Hstep) as (C' & LL' & A' & V' & H). exists (C' ++ C), (LL' ++ LL), (A' ++ A), (V' ++ V). exact H.
         * destruct (cinv_votereq cfg Ps HVn g C LL A V i j cut fs g' HI Hstep) as (V' & H). exists C, LL, A, V'. exact H.
-        * destruct (cinv_voteresp cfg Ps HVn g C LL A V i j g' HI Hstep) as (C' & LL' & A' & H). exists C', LL', A', V. exact H.
+        * destruct (cinv_voteresp cfg Ps HVn g C LL A V i j g' HI Hstep) as (C' & LL' & A' & H). exists (C' ++ C), (LL' ++ LL), (A' ++ A), V. exact H.
         * destruct (cinv_ginput cfg Ps HVn g C LL A V j e cut fs g' HI) as (V' & H); [|exact Hstep|exists C, LL, A, V'; exact H].
           intros q ->. exact Hnv.
-      + destruct (cinv_propose cfg Ps HVn g C LL A V i ty data fs g' HI Hnc Hstep) as (C' & A' & H). exists C', LL, A', V. exact H.
+      + destruct (cinv_propose cfg Ps HVn g C LL A V i ty data fs g' HI Hnc Hstep) as (C' & A' & H). exists (C' ++ C), LL, (A' ++ A), V. exact H.
       + exists C, LL, A, V. apply (cinv_lsend cfg Ps g C LL A V i j next last g' HI Hstep).
       + exists C, LL, A, V. apply (cinv_lheartbeat cfg Ps g C LL A V i j g' HI Hstep).
-      + destruct (cinv_deliver cfg Ps HVn g C LL A V k cut fs g' HI Hstep) as (A' & H). exists C, LL, A', V. exact H.
+      + destruct (cinv_deliver cfg Ps HVn g C LL A V k cut fs g' HI Hstep) as (A' & H). exists C, LL, (A' ++ A), V. exact H.
     - exists C, LL, A, V. apply (cinv_ack cfg Ps HVn g C LL A V k g' HI Hstep).
     - exists C, LL, A, V. apply (cinv_giveup cfg Ps g C LL A V i j g' HI Hstep).
     - exists C, LL, A, V. apply (cinv_commit cfg Ps HVn g C LL A V i g' HI Hstep).
